@@ -46,7 +46,8 @@ def run_e1_ids(res, tier):
         consts = [(it["name"], it.get("expr")) for it in items if it.get("k") == "const" and it["name"].endswith("_REPLY_ID")]
         res.outcome((bool(o.get("dirty")), len(consts)))
         import re
-        rule = "underscore_placement_around_digits" if (n1.replace("_", "") == n2.replace("_", "") and re.search(r"[0-9]", n1)) else "other"
+        rule = ("underscore_placement_around_digits" if (n1.replace("_", "") == n2.replace("_", "") and re.search(r"[0-9]", n1))
+                else "underscore_run_length" if re.sub(r"_+", "_", n1) == re.sub(r"_+", "_", n2) else "other")
         if o.get("dirty"):
             res.violation({"kind": "ids_e1", "cls": "distinct_names_rejected", "differ_by": rule, "names": [n1, n2], "shape": shape, "program": src,
                            "what": "reply handler names `%s` and `%s` are distinct but the contract is rejected (their id constants coincide)" % (n1, n2)})
